@@ -5,5 +5,6 @@ REGISTRY = {
     "C03": "core",
     "C05": "c05",
     "C10": "core",
+    "C16": "c16",
     "C11": "core",
 }
